@@ -761,6 +761,33 @@ func genHot(r *rng, p *Plan) (nTasks, nParse int) {
 		}
 		p.Tasks = append(p.Tasks, ops)
 	}
+	// coincidences: a value nobody has seen yet is used by ALL tasks at about
+	// the same position of their histories (first-use windows: two callers
+	// missing the same cache entry, losing a LoadOrStore, initialising the
+	// same slot) - parsed, kept, changed and observed
+	for k := r.intn(4); k > 0; k-- {
+		fresh := genValid(r, ver)
+		pos := r.intn(perTask + 1)
+		m := sp.Metrics[r.intn(len(sp.Metrics))]
+		for t := range p.Tasks {
+			own := 2*t + r.intn(2)
+			ins := []Op{{K: kParse, V: ver, C: -1, D: own, S: fresh}}
+			nParse++
+			if r.chance(0.6) {
+				ins = append(ins, Op{K: kSet, C: own, D: -1, S: m.Abv, S2: r.pick(m.Values)})
+			}
+			if r.chance(0.5) {
+				ins = append(ins, Op{K: r.pick([]string{kVector, kScore, kRTrip}), C: own, D: -1, S: apis[ver].ScoreNames()[0]})
+			}
+			at := pos + r.intn(3)
+			if at > len(p.Tasks[t]) {
+				at = len(p.Tasks[t])
+			}
+			ops := append([]Op{}, p.Tasks[t][:at]...)
+			ops = append(ops, ins...)
+			p.Tasks[t] = append(ops, p.Tasks[t][at:]...)
+		}
+	}
 	return nTasks, nParse
 }
 
